@@ -263,7 +263,16 @@ def _check_dep_coverage(ctx, model, dm):
     mem = model.lookup(dm, "combine")
     ok = False
     if mem is not None and mem.kind == "func":
-        verdict = _is_union_of_all(mem.node)
+        alias = _grows_a_child_result(mem.node)
+        ctx.ob("O/DependencyMapper/combine/result-is-fresh", alias is None,
+               where(mem), "the union is built in a set of its own" if alias is
+               None else
+               f"combine updates '{alias}' in place, and '{alias}' is one of the "
+               "child results it was handed: that set may be stored (the "
+               "look-aside cache of the cached variant, the wrapper cache of "
+               "the CSE mix-in), so a later query of the same sub-expression "
+               "reports its siblings' variables too: m(x + y); m(x) -> {x, y}")
+        verdict = _is_union_of_all(mem.node) if alias is None else False
         if verdict is None:
             raise AnalysisError("Collector.combine: the way the child results "
                                 "are joined is not one the checker can read")
@@ -271,6 +280,46 @@ def _check_dep_coverage(ctx, model, dm):
     ctx.ob("K/DependencyMapper/combine", ok, where(mem) if mem else dm.loc(),
            "combine = union of all child results" if ok else
            "combine is not reduce(operator.or_, values, set())")
+
+
+def _grows_a_child_result(fn):
+    """name of a local that (may) alias an element of the values handed in and
+    is updated in place, or None"""
+    params = [a.arg for a in fn.args.args]
+    if len(params) < 2:
+        return None
+    derived = {params[1]}
+    fresh_calls = ("set", "frozenset", "list", "dict", "copy", "sorted")
+    for _ in range(4):
+        for st in ast.walk(fn):
+            tg = None
+            if isinstance(st, ast.Assign) and len(st.targets) == 1:
+                tg, val = st.targets[0], st.value
+            elif isinstance(st, ast.For):
+                tg, val = st.target, st.iter
+            if tg is None:
+                continue
+            if isinstance(val, ast.Call) and ast.unparse(val.func).split(".")[-1] \
+                    in fresh_calls:
+                continue        # a copy is a new object
+            if isinstance(val, ast.BinOp):
+                continue        # a | b builds a new set
+            if any(isinstance(x, ast.Name) and x.id in derived
+                   for x in ast.walk(val)):
+                for x in ast.walk(tg):
+                    if isinstance(x, ast.Name):
+                        derived.add(x.id)
+    for st in ast.walk(fn):
+        if isinstance(st, ast.AugAssign) and isinstance(st.target, ast.Name) \
+                and st.target.id in derived and st.target.id != params[1]:
+            return st.target.id
+        if isinstance(st, ast.Call) and isinstance(st.func, ast.Attribute) and \
+                st.func.attr in ("update", "add", "intersection_update",
+                                 "difference_update") and isinstance(
+                                     st.func.value, ast.Name) and \
+                st.func.value.id in derived:
+            return st.func.value.id
+    return None
 
 
 def _is_union_of_all(fn):
